@@ -103,6 +103,10 @@ for _prop, _codecs in sorted(ENC_PROPS.items()):
             _w = _w % _c[0]
         if _fam in ('default-constructed', 'default-choice'):
             _syms = ["*:encode-raised:*", "*:in-zone-output-differs-from-emulation", "*value-differs*", "*decode-raised*"]
+            if _prop == 'C05':
+                # ... seen by C05's history monitor: the stream item was encoded by the library, which took the value
+                # for its DEFAULT and left it out, so every schedule yields the default instead of the value
+                _syms += ["objects-differ"]
             if _prop == 'C04':
                 # the same comparison, seen by C04's history monitor: the omit/emit decision (or the raise) differs
                 # between two construction histories of one abstract value
